@@ -163,15 +163,15 @@ Qed.
 
 (* ---- Mkdir: write and search permission on the parent (EACCES); owner, group, mode of the new directory ------- *)
 Theorem dstep_mkdir (s : fsys) (sv : sview) (w : list str) (cl : str) (perm : N) :
-  dac_hyps s sv -> path_ok s sv SlLstat (w ++ [cl]) -> no_setgid_parent s sv (w ++ [cl]) ->
+  dac_hyps s sv -> path_ok s sv SlLstat (w ++ [cl]) ->
   let p := abs_path (w ++ [cl]) in
   (fst (mkdir s (sv_view sv) p perm), proj_res Linux (snd (mkdir s (sv_view sv) p perm))) = k_mkdir s sv p perm.
 Proof.
-  intros H Hp Hsg p. pose proof (dresolve s sv SlLstat (w ++ [cl]) H Hp) as R.
+  intros H Hp p. pose proof (dresolve s sv SlLstat (w ++ [cl]) H Hp) as R.
   destruct Hp as (Hg & Hk1 & Hnf). change (follow_of SlLstat) with false in R, Hk1. change (precise_of SlLstat) with true in R.
   destruct (klookup_pm s sv false w cl Hg Hk1) as (Hkn & Hkg & Hpm).
   unfold p. rewrite (mkdir_nonempty s (sv_view sv) _ perm (abs_path_nonempty _)). cbv zeta.
-  unfold k_mkdir. rewrite Hpm. unfold no_setgid_parent in Hsg.
+  unfold k_mkdir. rewrite Hpm.
   pose proof (klookup_final s sv false (w ++ [cl]) Hg) as Hfin.
   destruct (klookup s sv false false (abs_path (w ++ [cl]))) as [par kind name n|par name md| |e] eqn:HK; cbn [walk_rel] in R.
   - destruct (Hkn _ _ _ _ eq_refl) as (-> & ->). destruct Hfin as (F1 & _). destruct R as (R1 & _).
@@ -180,8 +180,7 @@ Proof.
     destruct (at_name_views _ _ _ _ _ _ (R4 eq_refl)) as (V1 & V2 & _).
     rewrite R1, V2, R3, V1, F1. cbn [is_not_exist negb orb].
     rewrite perm_on_write_lookup. destruct (kperm (f_heap s) par 3 (v_user (sv_view sv))); cbn [negb]; [|reflexivity].
-    unfold create_dir, alloc_child, kmeta, new_meta, new_owner_gid. rewrite (Hsg _ _ _ eq_refl), (dh_os _ _ H). cbn [fst dir_mode andb].
-    rewrite land_dir_bits. reflexivity.
+    rewrite create_dir_alloc by exact (dh_os _ _ H). reflexivity.
   - destruct R.
   - destruct R as (R1 & R2). destruct (werr_cases _ _ R1 Hnf) as (Hc & ->).
     destruct Hc as [Hc|[Hc|[Hc|Hc]]]; rewrite Hc in *; try reflexivity.
@@ -190,15 +189,15 @@ Qed.
 
 (* ---- Symlink: write and search permission on the parent ------------------------------------------------------ *)
 Theorem dstep_symlink (s : fsys) (sv : sview) (w : list str) (cl : str) (t : str) :
-  dac_hyps s sv -> path_ok s sv SlLstat (w ++ [cl]) -> no_setgid_parent s sv (w ++ [cl]) ->
+  dac_hyps s sv -> path_ok s sv SlLstat (w ++ [cl]) ->
   let p := abs_path (w ++ [cl]) in
   (fst (symlink s (sv_view sv) t p), proj_res Linux (snd (symlink s (sv_view sv) t p)))
   = k_symlink s sv (clean Linux t) p.
 Proof.
-  intros H Hp Hsg p. pose proof (dresolve s sv SlLstat (w ++ [cl]) H Hp) as R.
+  intros H Hp p. pose proof (dresolve s sv SlLstat (w ++ [cl]) H Hp) as R.
   destruct Hp as (Hg & Hk1 & Hnf). change (follow_of SlLstat) with false in R, Hk1. change (precise_of SlLstat) with true in R.
   destruct (klookup_pm s sv false w cl Hg Hk1) as (Hkn & Hkg & Hpm).
-  unfold p, symlink, k_symlink. rewrite Hpm. unfold no_setgid_parent in Hsg.
+  unfold p, symlink, k_symlink. rewrite Hpm.
   pose proof (klookup_final s sv false (w ++ [cl]) Hg) as Hfin.
   destruct (clean Linux t) as [|t0 t'] eqn:Et; [exfalso; exact (clean_nonempty t Et)|]. rewrite <- Et. clear Et t0 t'.
   destruct (klookup s sv false false (abs_path (w ++ [cl]))) as [par kind name n|par name md| |e] eqn:HK; cbn [walk_rel] in R.
@@ -208,7 +207,7 @@ Proof.
     destruct (at_name_views _ _ _ _ _ _ (R4 eq_refl)) as (V1 & V2 & _).
     rewrite R1, V2, R3, V1, F1. cbn [is_not_exist negb orb].
     rewrite (perm_on_write_searchable _ _ _ F3). destruct (kperm (f_heap s) par 3 (v_user (sv_view sv))); cbn [negb]; [|reflexivity].
-    unfold create_symlink, alloc_child, new_owner_gid. rewrite (Hsg _ _ _ eq_refl), (dh_os _ _ H). reflexivity.
+    rewrite create_symlink_alloc, (dh_os _ _ H). reflexivity.
   - destruct R.
   - destruct R as (R1 & R2). destruct (werr_cases _ _ R1 Hnf) as (Hc & ->).
     destruct Hc as [Hc|[Hc|[Hc|Hc]]]; rewrite Hc in *; try reflexivity.
@@ -631,21 +630,16 @@ Proof.
   - apply (open_walk_err s sv vi cs flag perm SlEval e); assumption.
 Qed.
 
-(* the parent of a file created through a following walk has its set-group-id bit clear *)
-Definition no_setgid_parent_follow (s : fsys) (sv : sview) (cs : list str) : Prop :=
-  forall par name md, klookup s sv false true (abs_path cs) = WNeg par name md ->
-                      is_setgid (m_mode (meta_of (f_heap s) par)) = false.
-
-Lemma create_file_alloc (s : fsys) (sv : sview) (vi : nat) (par : nat) (name nm : str) (perm om : N) :
-  v_os (sv_view sv) = Linux -> is_setgid (m_mode (meta_of (f_heap s) par)) = false ->
+(* the file OpenFile creates is the one open(2) creates (owner, group - inherited in a set-group-id directory -, mode) *)
+Lemma create_file_sim (s : fsys) (sv : sview) (vi : nat) (par : nat) (name nm : str) (perm om : N) :
+  v_os (sv_view sv) = Linux ->
   open_sim (let '(s1, c) := create_file s (sv_view sv) par name perm in (s1, inr (new_handle c vi nm 0 om)))
            (let '(s1, c) := alloc_child s par name
                               (NFile [] 1 (f_last_id s + 1)
                                  (kmeta (f_heap s) par (sv_view sv) 0 (N.land perm FILE_MODE_MASK) false)) true in
             (s1, inr c)).
 Proof.
-  intros Hos Hsg. unfold create_file, alloc_child, kmeta, new_meta, new_owner_gid. rewrite Hsg, Hos.
-  cbn [file_mode andb]. split; reflexivity.
+  intros Hos. rewrite create_file_alloc by exact Hos. split; reflexivity.
 Qed.
 
 (* O_CREAT without O_EXCL: a final symbolic link is followed; an existing object is opened as above; a missing
@@ -653,11 +647,11 @@ Qed.
 Theorem dstep_open_creat (s : fsys) (sv : sview) (w : list str) (cl : str) (flag perm : N) (vi : nat) :
   dac_hyps s sv -> path_ok s sv SlEval (w ++ [cl]) ->
   has flag O_CREATE = true -> has flag O_EXCL = false ->
-  (has flag O_TRUNC = true -> file_privs_kept s sv (w ++ [cl])) -> no_setgid_parent_follow s sv (w ++ [cl]) ->
+  (has flag O_TRUNC = true -> file_privs_kept s sv (w ++ [cl])) ->
   let p := abs_path (w ++ [cl]) in
   open_sim (open_file s (sv_view sv) vi p flag perm) (k_open s sv p flag perm).
 Proof.
-  intros H Hp Hcr Hex Hpk Hsg p. pose proof (dresolve s sv SlEval (w ++ [cl]) H Hp) as R. destruct Hp as (Hg & _ & Hnf).
+  intros H Hp Hcr Hex Hpk p. pose proof (dresolve s sv SlEval (w ++ [cl]) H Hp) as R. destruct Hp as (Hg & _ & Hnf).
   destruct (om_facts flag) as (M1 & M2 & M3 & M4 & M5 & M6 & M7). cbv zeta in *.
   rewrite Hcr in M3. rewrite Hcr, Hex in M4. cbn [andb] in M4.
   unfold p. unfold abs_path at 1. rewrite open_file_eq. fold (abs_path (w ++ [cl])). rewrite k_open_eq. cbv zeta.
@@ -676,7 +670,7 @@ Proof.
       destruct Hfin as (F1 & _).
       rewrite R1, V2, R3, V1, F1. cbn [is_file_exists is_not_exist negb andb orb].
       rewrite perm_on_write_lookup. destruct (kperm (f_heap s) par 3 (v_user (sv_view sv))); cbn [negb]; [|split; reflexivity].
-      apply create_file_alloc; [exact (dh_os _ _ H)|exact (Hsg _ _ _ HK)].
+      apply create_file_sim; exact (dh_os _ _ H).
     + destruct R.
     + apply (open_walk_err s sv vi (w ++ [cl]) flag perm SlEval e); assumption.
 Qed.
@@ -691,11 +685,11 @@ Definition excl_existing_accessible (s : fsys) (sv : sview) (cs : list str) (fla
 Theorem dstep_open_excl (s : fsys) (sv : sview) (w : list str) (cl : str) (flag perm : N) (vi : nat) :
   dac_hyps s sv -> path_ok s sv SlLstat (w ++ [cl]) ->
   has flag O_CREATE = true -> has flag O_EXCL = true ->
-  excl_existing_accessible s sv (w ++ [cl]) flag -> no_setgid_parent s sv (w ++ [cl]) ->
+  excl_existing_accessible s sv (w ++ [cl]) flag ->
   let p := abs_path (w ++ [cl]) in
   open_sim (open_file s (sv_view sv) vi p flag perm) (k_open s sv p flag perm).
 Proof.
-  intros H Hp Hcr Hex Hea Hsg p. pose proof (dresolve s sv SlLstat (w ++ [cl]) H Hp) as R.
+  intros H Hp Hcr Hex Hea p. pose proof (dresolve s sv SlLstat (w ++ [cl]) H Hp) as R.
   destruct Hp as (Hg & Hk1 & Hnf).
   destruct (om_facts flag) as (M1 & M2 & M3 & M4 & M5 & M6 & M7). cbv zeta in *.
   rewrite Hcr in M3. rewrite Hcr, Hex in M4. cbn [andb] in M4.
@@ -714,7 +708,7 @@ Proof.
     destruct R as (R1 & R2 & R3 & R4). destruct (at_name_views _ _ _ _ _ _ (R4 eq_refl)) as (V1 & V2 & _).
     rewrite R1, V2, R3, V1, F1. cbn [is_file_exists is_not_exist negb andb orb].
     rewrite perm_on_write_lookup. destruct (kperm (f_heap s) par 3 (v_user (sv_view sv))); cbn [negb]; [|split; reflexivity].
-    apply create_file_alloc; [exact (dh_os _ _ H)|exact (Hsg _ _ _ HK)].
+    apply create_file_sim; exact (dh_os _ _ H).
   - destruct R.
   - apply (open_walk_err s sv vi (w ++ [cl]) flag perm SlLstat e); assumption.
 Qed.
@@ -1030,11 +1024,9 @@ Definition open_covered (s : fsys) (sv : sview) (p : str) (flag : N) : Prop :=
   ((has flag O_CREATE = false /\ exists cs, p = abs_path cs /\ path_ok s sv SlEval cs
       /\ (has flag O_TRUNC = true -> file_privs_kept s sv cs))
    \/ (has flag O_CREATE = true /\ has flag O_EXCL = false /\ exists w cl, p = abs_path (w ++ [cl])
-         /\ path_ok s sv SlEval (w ++ [cl]) /\ (has flag O_TRUNC = true -> file_privs_kept s sv (w ++ [cl]))
-         /\ no_setgid_parent_follow s sv (w ++ [cl]))
+         /\ path_ok s sv SlEval (w ++ [cl]) /\ (has flag O_TRUNC = true -> file_privs_kept s sv (w ++ [cl])))
    \/ (has flag O_CREATE = true /\ has flag O_EXCL = true /\ exists w cl, p = abs_path (w ++ [cl])
-         /\ path_ok s sv SlLstat (w ++ [cl]) /\ excl_existing_accessible s sv (w ++ [cl]) flag
-         /\ no_setgid_parent s sv (w ++ [cl]))).
+         /\ path_ok s sv SlLstat (w ++ [cl]) /\ excl_existing_accessible s sv (w ++ [cl]) flag)).
 
 Definition dcovered (phl : bool) (vi : nat) (sw : sworld) (c : call) : Prop :=
   let s := sw_fs sw in
@@ -1049,10 +1041,9 @@ Definition dcovered (phl : bool) (vi : nat) (sw : sworld) (c : call) : Prop :=
   | CTruncate vi' p _ => vi' = vi /\ exists cs, p = abs_path cs /\ path_ok s sv SlEval cs /\ file_privs_kept s sv cs
   | CMkdir vi' p _ =>
       vi' = vi /\ exists w cl, p = abs_path (w ++ [cl]) /\ path_ok s sv SlLstat (w ++ [cl])
-                               /\ no_setgid_parent s sv (w ++ [cl])
   | CSymlink vi' t p =>
       vi' = vi /\ t = clean Linux t /\
-      exists w cl, p = abs_path (w ++ [cl]) /\ path_ok s sv SlLstat (w ++ [cl]) /\ no_setgid_parent s sv (w ++ [cl])
+      exists w cl, p = abs_path (w ++ [cl]) /\ path_ok s sv SlLstat (w ++ [cl])
   | CRemove vi' p =>
       vi' = vi /\ sym_single (f_heap s) /\ exists w cl, p = abs_path (w ++ [cl]) /\ path_ok s sv SlLstat (w ++ [cl])
                                                        /\ no_sticky_refusal s sv (w ++ [cl])
@@ -1135,15 +1126,15 @@ Proof.
   intros Ha (H & Hc). pose proof Ha as (Hfs & Hv).
   destruct c; try (destruct Hc; fail); cbn [dcovered] in Hc.
   - (* Mkdir *)
-    destruct Hc as (-> & ww & cl & Ep & Hp & Hsg).
+    destruct Hc as (-> & ww & cl & Ep & Hp).
     apply (dworld_of_lift phl w vi sw Ha _ (mkdir (w_fs w) (sv_view (sw_sv sw)) p perm) (k_mkdir (sw_fs sw) (sw_sv sw) p perm)).
     + apply (impl_lift w _ _ (wstep_mkdir w vi _ Hv p perm)); [left; discriminate|exact I].
     + reflexivity.
-    + rewrite <- Hfs, Ep. exact (dstep_mkdir (sw_fs sw) (sw_sv sw) ww cl perm H Hp Hsg).
+    + rewrite <- Hfs, Ep. exact (dstep_mkdir (sw_fs sw) (sw_sv sw) ww cl perm H Hp).
   - (* OpenFile *)
     destruct Hc as (-> & Hoc).
     assert (OS : open_sim (open_file (w_fs w) (sv_view (sw_sv sw)) vi p flag perm) (k_open (sw_fs sw) (sw_sv sw) p flag perm)).
-    { rewrite <- Hfs. destruct Hoc as [(Hcr & cs & -> & Hp & Hpk)|[(Hcr & Hex & ww & cl & -> & Hp & Hpk & Hsg)|(Hcr & Hex & ww & cl & -> & Hp & Hea & Hsg)]].
+    { rewrite <- Hfs. destruct Hoc as [(Hcr & cs & -> & Hp & Hpk)|[(Hcr & Hex & ww & cl & -> & Hp & Hpk)|(Hcr & Hex & ww & cl & -> & Hp & Hea)]].
       - apply dstep_open_nocreat; assumption.
       - apply dstep_open_creat; assumption.
       - apply dstep_open_excl; assumption. }
@@ -1176,11 +1167,11 @@ Proof.
     + reflexivity.
     + rewrite <- Hfs, Eo, Ep. exact (dstep_link phl (sw_fs sw) (sw_sv sw) co ww cl H Hpo Hp Hns Hph).
   - (* Symlink *)
-    destruct Hc as (-> & Ht & ww & cl & Ep & Hp & Hsg).
+    destruct Hc as (-> & Ht & ww & cl & Ep & Hp).
     apply (dworld_of_lift phl w vi sw Ha _ (symlink (w_fs w) (sv_view (sw_sv sw)) o n) (k_symlink (sw_fs sw) (sw_sv sw) o n)).
     + apply (impl_lift w _ _ (wstep_symlink w vi _ Hv o n)); [left; discriminate|exact I].
     + reflexivity.
-    + rewrite <- Hfs, Ep. rewrite Ht at 3. exact (dstep_symlink (sw_fs sw) (sw_sv sw) ww cl o H Hp Hsg).
+    + rewrite <- Hfs, Ep. rewrite Ht at 3. exact (dstep_symlink (sw_fs sw) (sw_sv sw) ww cl o H Hp).
   - (* Readlink *)
     destruct Hc as (-> & cs & Ep & Hp).
     apply (dworld_of_ro phl w vi sw Ha _ (readlink (w_fs w) (sv_view (sw_sv sw)) p) (k_readlink (sw_fs sw) (sw_sv sw) p)).
